@@ -608,6 +608,7 @@ func checkC08(w *World, r *Report) {
 	checkTagTextConsumed(w, r, "R08.17")
 	checkOneEvaluator(w, r)
 	checkConstructorsKeepRoles(w, r)
+	checkConstructorsReturnTheirNode(w, r)
 	checkStringLiteralsDecodedAlike(w, r)
 	checkNumberFormatting(w, r)
 	checkMembershipEquality(w, r, evalCases)
@@ -2345,4 +2346,149 @@ func checkStringLiteralsDecodedAlike(w *World, r *Report) {
 		}
 	}
 	r.floor("LiteralNodes built from string tokens", len(sites), 1)
+}
+
+// operatorNodeBuilders: functions of the package that hand out an operator node (UnaryNode,
+// BinaryNode, ConditionalNode) built from Node parameters — result type is the node type, or the
+// result is a Node and some return yields a value made by such a function.  Maps to the node name.
+func (w *World) operatorNodeBuilders() map[*ssa.Function]string {
+	out := map[*ssa.Function]string{}
+	opNode := func(t types.Type) string {
+		for _, n := range []string{"UnaryNode", "BinaryNode", "ConditionalNode"} {
+			if _, isPtr := t.(*types.Pointer); isPtr && isNamed(t, twigPath, n) {
+				return n
+			}
+		}
+		return ""
+	}
+	hasNodeParam := func(fn *ssa.Function) bool {
+		for _, p := range fn.Params {
+			if isNamed(p.Type(), twigPath, "Node") {
+				if _, isPtr := p.Type().(*types.Pointer); !isPtr {
+					return true
+				}
+			}
+		}
+		return false
+	}
+	fns := w.pkgFuncs()
+	for _, fn := range fns {
+		if fn.Signature.Results().Len() != 1 || !hasNodeParam(fn) || fn.Signature.Recv() != nil {
+			continue
+		}
+		if n := opNode(fn.Signature.Results().At(0).Type()); n != "" {
+			out[fn] = n
+		}
+	}
+	for round := 0; round < 3; round++ {
+		for _, fn := range fns {
+			if out[fn] != "" || fn.Signature.Results().Len() != 1 || !hasNodeParam(fn) || fn.Signature.Recv() != nil {
+				continue
+			}
+			if !isNamed(fn.Signature.Results().At(0).Type(), twigPath, "Node") {
+				continue
+			}
+			instrsOf(fn, func(in ssa.Instruction) {
+				ret, ok := in.(*ssa.Return)
+				if !ok {
+					return
+				}
+				for _, v := range retResults(ret) {
+					seen := map[ssa.Value]bool{}
+					var walk func(v ssa.Value, d int)
+					walk = func(v ssa.Value, d int) {
+						v = unspill(v)
+						if v == nil || seen[v] || d > 6 {
+							return
+						}
+						seen[v] = true
+						switch x := v.(type) {
+						case *ssa.MakeInterface:
+							walk(x.X, d+1)
+						case *ssa.ChangeInterface:
+							walk(x.X, d+1)
+						case *ssa.Phi:
+							for _, e := range x.Edges {
+								walk(e, d+1)
+							}
+						case *ssa.Call:
+							if g := x.Call.StaticCallee(); g != nil && out[g] != "" {
+								out[fn] = out[g]
+							}
+						}
+					}
+					walk(v, 0)
+				}
+			})
+		}
+	}
+	return out
+}
+
+// checkConstructorsReturnTheirNode — R08.21: an operator written in the source is an operator node
+// in the tree.  A function that builds a UnaryNode, BinaryNode or ConditionalNode from operand
+// parameters returns, on every path, something other than one of those operands (or a part of
+// one): handing the operand back drops the operator, and with it the conversion the operator
+// performs (`not not x` is a boolean, `- -x` a number, not x).
+func checkConstructorsReturnTheirNode(w *World, r *Report) {
+	n := 0
+	builders := w.operatorNodeBuilders()
+	var fns []*ssa.Function
+	for fn := range builders {
+		fns = append(fns, fn)
+	}
+	sort.Slice(fns, func(i, j int) bool { return fns[i].Name() < fns[j].Name() })
+	for _, fn := range fns {
+		instrsOf(fn, func(in ssa.Instruction) {
+			ret, ok := in.(*ssa.Return)
+			if !ok {
+				return
+			}
+			for _, v := range retResults(ret) {
+				n++
+				var from *ssa.Parameter
+				seen := map[ssa.Value]bool{}
+				var walk func(v ssa.Value, d int)
+				walk = func(v ssa.Value, d int) {
+					v = unspill(v)
+					if v == nil || seen[v] || d > 8 {
+						return
+					}
+					seen[v] = true
+					switch x := v.(type) {
+					case *ssa.Parameter:
+						if isNamed(x.Type(), twigPath, "Node") {
+							from = x
+						}
+					case *ssa.MakeInterface:
+						walk(x.X, d+1)
+					case *ssa.ChangeInterface:
+						walk(x.X, d+1)
+					case *ssa.TypeAssert:
+						walk(x.X, d+1)
+					case *ssa.Extract:
+						walk(x.Tuple, d+1)
+					case *ssa.Phi:
+						for _, e := range x.Edges {
+							walk(e, d+1)
+						}
+					case *ssa.UnOp:
+						if x.Op == token.MUL {
+							if fa, ok := x.X.(*ssa.FieldAddr); ok && isNamed(x.Type(), twigPath, "Node") {
+								walk(fa.X, d+1)
+							}
+						}
+					}
+				}
+				walk(v, 0)
+				construct := "a " + builders[fn] + " builder returns the node it builds"
+				if from != nil {
+					r.bad("R08.21", ssaName(fn), construct, w.posOf(ret.Pos()), "on this path the function hands back its operand "+from.Name()+" (or a part of it) instead of an operator node: the operator written in the source is not in the tree, and the result keeps the operand's type and value where the operator converts it")
+				} else {
+					r.ok("R08.21", ssaName(fn), construct, w.posOf(ret.Pos()), "the result is a node made here", false)
+				}
+			}
+		})
+	}
+	r.floor("returns of operator-node builders", n, 3)
 }
